@@ -15,7 +15,7 @@ import c18 as trig
 import c05_real
 
 PROPERTY = "C05"
-LEAN_MODULES = ["Proofs.C05", "Proofs.C05.Refresh", "Proofs.C05.Hooks", "Proofs.C05.Finalize", "Proofs.C05.BarIndex", "Proofs.C05.Clock", "Proofs.C05.Strict"]
+LEAN_MODULES = ["Proofs.C05", "Proofs.C05.Refresh", "Proofs.C05.Hooks", "Proofs.C05.Finalize", "Proofs.C05.BarIndex", "Proofs.C05.Clock", "Proofs.C05.Strict", "Proofs.C05.Prefix"]
 DRIVERS = ["driver_core"]
 RULE = ("random runs: 1..3 markets (minutely, hourly, hourly option book with 2..80 rows per timestamp — sometimes more rows than the longest market has "
         "minutes —, with gaps, starting late / ending early), bar interval 1/2/3/5/7/15/45/60 min (string forms "
